@@ -491,8 +491,8 @@ def accepts_none(spec):
 def conforms(o, spec, reg, path='$', lax=None):
     """None if `o` is a value of the annotated type `spec` (exact container type, element types,
     Literal members by value and type, Union members, nested dataclass types); else a description.
-    With `lax` (a set) the three listed leniencies of the default engine are admitted and recorded:
-    F46 annotation None keeps anything, F44 Union without None passes None, F45 short fixed tuple."""
+    With `lax` (a set) the two listed leniencies of the default engine are admitted and recorded:
+    F46 annotation None keeps anything, F45 short fixed tuple (never for v1: '@v1' in lax)."""
     t = spec['t']
     bad = lambda why: '%s: %s (got %s %r)' % (path, why, type(o).__name__, repr(o)[:60])
     rec = lambda x, s, p: conforms(x, s, reg, p, lax)
@@ -554,15 +554,6 @@ def conforms(o, spec, reg, path='$', lax=None):
             if conforms(o, e, reg, path, trial) is None:
                 if trial: lax.update(trial)
                 return None
-        if lax is not None and '@v1' in lax:
-            # F47 (v1): the raw JSON container is returned when a container member failed to parse and the
-            # Union also has a str/int/float/bool member (type-check variable clobbered by a nested walrus)
-            if type(o) in (list, dict) and any(e['t'] in ('str', 'int', 'float', 'bool') for e in spec['es']) \
-                    and any(e['t'] in ('seq', 'tuple', 'vartuple', 'dict', 'nt', 'td') for e in spec['es']):
-                lax.add('F47-v1-union-returns-raw-container'); return None
-            return bad('in no Union member')
-        if o is None and lax is not None:
-            lax.add('F44-union-without-none-passes-none'); return None
         return bad('in no Union member')
     if t == 'lit':
         for v in spec['vs']:
